@@ -59,6 +59,17 @@ type baseState struct {
 	retentionFloor *pruner.RetentionFloor
 }
 
+// resetFilterOnError is wrapped around every block write. The running event filter is updated
+// inside the write batch (as its last step, signalled through filterUpdated), before the batch is
+// committed; when the filter update or the commit fails, the in-memory filter is ahead of the
+// database and is discarded, to be re-initialised from the database on its next use.
+func (b *baseState) resetFilterOnError(filterUpdated *bool, err error) error {
+	if err != nil && *filterUpdated {
+		b.runningFilter.Reset()
+	}
+	return err
+}
+
 func New(
 	database db.KeyValueStore,
 	runningFilter *core.RunningEventFilter,
